@@ -179,6 +179,20 @@ func checkCase(c *fw.Ctx, s *chain.Sim, kind string, b types.Block, bs consensus
 			res.Violate(fw.Violation{Key: "c09-copy-verdict-differs", What: "ValidateBlock on decode(encode(b)) disagrees with ValidateBlock on b", Replay: rp, Expected: v1, Observed: v3})
 		}
 		res.Count("decoded-copy")
+		// the proofs of a decoded block are independent values: a client that carries one of them forward
+		// (UpdateElementProof appends the hashes of tree growth) must not thereby overwrite another one
+		if bc.V2 != nil {
+			enc0 := encodeBlockFull(bc)
+			grown := 0
+			for _, p := range v2ProofSlices(&bc) {
+				_ = append(*p, types.Hash256{0xA1, 0x1A, 0x5E, 0xD0})
+				grown++
+			}
+			if grown > 1 && !bytes.Equal(encodeBlockFull(bc), enc0) {
+				res.Violate(fw.Violation{Key: "c09-decoded-proofs-alias", What: "appending to one element proof of a block obtained from DecodeFrom changed another proof of the same block (the decoded proofs share a backing array with spare capacity)", Replay: rp})
+			}
+			res.Count("decoded-copy-growth")
+		}
 	}
 	// step by step
 	sv := stepwise(cs, b, bs)
@@ -292,6 +306,33 @@ func checkCase(c *fw.Ctx, s *chain.Sim, kind string, b types.Block, bs consensus
 		}
 	}
 	_ = kind
+}
+
+// v2ProofSlices returns pointers to every element proof carried by the block's v2 transactions.
+func v2ProofSlices(b *types.Block) []*[]types.Hash256 {
+	var out []*[]types.Hash256
+	if b.V2 == nil {
+		return out
+	}
+	for i := range b.V2.Transactions {
+		t := &b.V2.Transactions[i]
+		for j := range t.SiacoinInputs {
+			out = append(out, &t.SiacoinInputs[j].Parent.StateElement.MerkleProof)
+		}
+		for j := range t.SiafundInputs {
+			out = append(out, &t.SiafundInputs[j].Parent.StateElement.MerkleProof)
+		}
+		for j := range t.FileContractRevisions {
+			out = append(out, &t.FileContractRevisions[j].Parent.StateElement.MerkleProof)
+		}
+		for j := range t.FileContractResolutions {
+			out = append(out, &t.FileContractResolutions[j].Parent.StateElement.MerkleProof)
+			if sp, ok := t.FileContractResolutions[j].Resolution.(*types.V2StorageProof); ok {
+				out = append(out, &sp.ProofIndex.StateElement.MerkleProof)
+			}
+		}
+	}
+	return out
 }
 
 // c09Prev: an earlier (state, block, supplement) with its verdict, validated again concurrently with later cases
